@@ -94,20 +94,38 @@ func runDaemon(in *bufio.Scanner, w *bufio.Writer) {
 
 // ---- child
 
-var vdEnded = make(chan string, 16)
+// the camera daemon's D-Bus service as the recorder sees it (leptondController): the harness owns the name on the
+// private bus and counts the camera restarts the recorder asks for — what a bad frame must cause (C13), observed at
+// the interface itself rather than in the wording of a log line
+type vdLeptond struct{}
+
+var vdRestarts int64
+
+func (vdLeptond) RestartCamera() *dbus.Error        { atomic.AddInt64(&vdRestarts, 1); return nil }
+func (vdLeptond) SetAutoFFC(automatic bool) *dbus.Error { return nil }
+func (vdLeptond) RunFFC() *dbus.Error               { return nil }
+
+// The daemon serves one camera at a time: it closes (and thereby unlinks) the listening socket once a connection is
+// accepted and creates a new one only after handleConn has returned.  So the connection dialled through socket file X is
+// over exactly when the path holds a socket file that is not X any more (another inode or a later change time).
+var vdSockID string
+
+func vdSockIdentity(sock string) string {
+	var st syscall.Stat_t
+	if syscall.Stat(sock, &st) != nil {
+		return ""
+	}
+	return fmt.Sprintf("%d/%d.%d", st.Ino, st.Ctim.Sec, st.Ctim.Nsec)
+}
+
+func vdConnEnded(sock string) bool {
+	id := vdSockIdentity(sock)
+	return id != "" && id != vdSockID
+}
 
 type vDaemonTap struct{}
 
-func (vDaemonTap) Write(p []byte) (int, error) {
-	s := string(p)
-	if strings.Contains(s, "bad frame") {
-		atomic.AddInt64(&vBadReports, 1)
-	}
-	if i := strings.Index(s, "camera connection ended with: "); i >= 0 {
-		vdEnded <- strings.TrimSpace(s[i+len("camera connection ended with: "):])
-	}
-	return len(p), nil
-}
+func (vDaemonTap) Write(p []byte) (int, error) { return len(p), nil } // nothing is read from the daemon's log
 
 func vdFindBusDaemon() string {
 	if p, err := exec.LookPath("dbus-daemon"); err == nil {
@@ -139,8 +157,10 @@ func vdQuiescent(cond func() bool) {
 
 func vdDial(sock string) net.Conn {
 	for i := 0; i < 2000; i++ {
+		id := vdSockIdentity(sock)
 		c, err := net.Dial("unix", sock)
 		if err == nil {
+			vdSockID = id
 			return c
 		}
 		time.Sleep(5 * time.Millisecond)
@@ -190,24 +210,29 @@ func runDaemonCase(in *bufio.Scanner, w *bufio.Writer) {
 	startErr := make(chan error, 1)
 
 	report := func() {
-		select {
-		case msg := <-vdEnded:
-			switch {
-			case headerInfo == nil:
-				fmt.Fprintf(w, "< conn header-error %v\n", msg != "<nil>" && msg != "%!v(<nil>)")
-			case msg == "EOF":
-				fmt.Fprintln(w, "< conn eof")
-			case msg == "unexpected EOF":
-				fmt.Fprintln(w, "< conn truncated")
+		ended := false
+		for k := 0; k < 6000 && !ended; k++ {
+			select {
+			case err := <-startErr:
+				fmt.Fprintf(w, "< conn daemon-exited %v\n", err != nil)
+				k = 6000
 			default:
-				fmt.Fprintln(w, "< conn error")
+				if vdConnEnded(sock) {
+					ended = true
+				} else {
+					time.Sleep(5 * time.Millisecond)
+				}
 			}
-		case err := <-startErr:
-			fmt.Fprintf(w, "< conn daemon-exited %v\n", err != nil)
-		case <-time.After(30 * time.Second):
-			fmt.Fprintln(w, "< conn hang")
 		}
-		fmt.Fprintf(w, "< badreports %d\n", atomic.SwapInt64(&vBadReports, 0))
+		switch {
+		case !ended:
+			fmt.Fprintln(w, "< conn hang")
+		case headerInfo == nil:
+			fmt.Fprintln(w, "< conn header-error true")
+		default:
+			fmt.Fprintln(w, "< conn ended")
+		}
+		fmt.Fprintf(w, "< badreports %d\n", atomic.SwapInt64(&vdRestarts, 0))
 		if headerInfo != nil {
 			fmt.Fprintf(w, "< header resx=%d resy=%d fps=%d framesize=%d brand=%s model=%s serial=%d firmware=%s\n",
 				headerInfo.ResX(), headerInfo.ResY(), headerInfo.FPS(), headerInfo.FrameSize(),
@@ -272,6 +297,15 @@ func runDaemonCase(in *bufio.Scanner, w *bufio.Writer) {
 				}
 				time.Sleep(5 * time.Millisecond)
 			}
+			// the harness's own connection to the bus: the camera daemon's service (fake) and, later, calls of the recorder's methods
+			if c, err := dbus.Dial("unix:path=" + busSock); err == nil {
+				if c.Auth(nil) == nil && c.Hello() == nil {
+					bus = c
+					if r, err := c.RequestName("org.cacophony.leptond", dbus.NameFlagDoNotQueue); err == nil && r == dbus.RequestNameReplyPrimaryOwner {
+						c.Export(vdLeptond{}, "/org/cacophony/leptond", "org.cacophony.leptond")
+					}
+				}
+			}
 			os.Setenv("DBUS_SYSTEM_BUS_ADDRESS", busSock) // godbus v4.1.0 prefixes "unix:path=" itself
 			os.Args = []string{"thermal-recorder", "-c", dir}
 			go func() { startErr <- runMain() }()
@@ -303,12 +337,6 @@ func runDaemonCase(in *bufio.Scanner, w *bufio.Writer) {
 				return
 			}
 			active = true
-			// the harness's own connection to the bus, for the service's methods
-			if c, err := dbus.Dial("unix:path=" + busSock); err == nil {
-				if c.Auth(nil) == nil && c.Hello() == nil {
-					bus = c
-				}
-			}
 		case "second":
 			if !active {
 				continue
@@ -338,10 +366,15 @@ func runDaemonCase(in *bufio.Scanner, w *bufio.Writer) {
 			if _, err := client.Write(data); err != nil {
 				fmt.Fprintln(w, "< write-error")
 				client.Close()
-				select {
-				case <-vdEnded:
-					fmt.Fprintln(w, "< conn error")
-				case <-time.After(5 * time.Second):
+				ok := false
+				for k := 0; k < 1000 && !ok; k++ {
+					if ok = vdConnEnded(sock); !ok {
+						time.Sleep(5 * time.Millisecond)
+					}
+				}
+				if ok {
+					fmt.Fprintln(w, "< conn ended")
+				} else {
 					fmt.Fprintln(w, "< conn hang")
 				}
 				active = false
